@@ -322,6 +322,12 @@ type elHanded struct {
 	copy  []pb.Entry
 }
 
+type elRetained struct {
+	what  string
+	alias []pb.Entry
+	copy  []pb.Entry
+}
+
 type elGap struct{ lo, hi uint64 }
 
 type elH struct {
@@ -354,6 +360,10 @@ type elH struct {
 	handed     []*elHanded
 
 	readerStale bool
+	retained    []*elRetained
+	// the in-memory window was emptied by ONE apply acknowledgement while it
+	// was not in shrunk state (next append reuses the window's slice)
+	fullTrimFresh bool
 	// savedLoose: from the first pipelined GetUpdate until the next synchronous
 	// cycle has saved and acknowledged entries, see checkAllInner
 	savedLoose bool
@@ -867,6 +877,7 @@ func (h *elH) checkAllInner(where string) {
 			h.fail("getentries-mismatch", "after %s: getEntries(%d,%d,max)=%s,%s, model %s",
 				where, first, last+1, elBrief(got), h.errName(err), elBrief(m.slice(first, last+1)))
 		}
+		h.retain("getEntries() result", got)
 	}
 	// uncommitted entries held in memory (rate limit accounting): the part of
 	// (committed, last] that is inside the in-memory window
@@ -976,6 +987,53 @@ func (h *elH) checkAllInner(where string) {
 				where, elBrief(x.alias), elBrief(x.copy))
 		}
 	}
+	h.checkRetained(where)
+	// Hand out what a leader puts into a Replicate message for a follower that
+	// only needs the in-memory window (raft.makeReplicateMessage -> entries();
+	// the message sits in the transport's send queue and is serialised later
+	// on another goroutine), plus the other read results, and keep them.
+	if mk := el.InMemMarker(); mk >= first && mk <= last && !(m.pendSnap != nil && last == m.floor) {
+		got, err := el.Entries(mk, ^uint64(0))
+		if err != nil || !elSameEntries(got, m.slice(mk, last+1)) {
+			h.fail("entries-mismatch", "after %s: entries(%d,max)=%s,%s, model %s",
+				where, mk, elBrief(got), h.errName(err), elBrief(m.slice(mk, last+1)))
+		}
+		h.retain("entries() result (Replicate message)", got)
+	}
+	h.retain("entriesToSave() result", el.EntriesToSave())
+	if ta, err := el.EntriesToApply(); err == nil {
+		h.retain("entriesToApply() result", ta)
+	}
+}
+
+// retain keeps a slice the log handed out together with a deep copy; the unchanged
+// tree never writes to memory it has handed out (appends go beyond the handed
+// out length, truncation/resize/restore allocate), so holders may keep such a
+// slice for as long as they like.
+func (h *elH) retain(what string, ents []pb.Entry) {
+	if len(ents) == 0 {
+		return
+	}
+	if n := len(h.retained); n > 0 {
+		for _, r := range h.retained[max(0, n-3):] {
+			if r.what == what && len(r.alias) == len(ents) && &r.alias[0] == &ents[0] {
+				return // same memory already retained
+			}
+		}
+	}
+	h.retained = append(h.retained, &elRetained{what: what, alias: ents, copy: elCopyEntries(ents)})
+	if len(h.retained) > 18 {
+		h.retained = h.retained[1:]
+	}
+}
+
+func (h *elH) checkRetained(where string) {
+	for _, r := range h.retained {
+		if !elSameEntries(r.alias, r.copy) {
+			h.fail("handed-out-slice-mutated", "after %s: a slice handed out earlier (%s) changed underneath its holder: now %s, was %s",
+				where, r.what, elBrief(r.alias), elBrief(r.copy))
+		}
+	}
 }
 
 // ---------------------------------------------------------------------------
@@ -997,6 +1055,12 @@ func (h *elH) noteTruncation(ci uint64) {
 // ents[0].Index in (committed, last+1].
 func (h *elH) appendToModel(ents []pb.Entry) {
 	m := h.m
+	if h.fullTrimFresh {
+		h.fullTrimFresh = false
+		if len(h.retained) > 0 {
+			h.label("append-after-full-trim-with-slices-retained")
+		}
+	}
 	f := ents[0].Index
 	if f <= m.last() {
 		h.noteTruncation(f)
@@ -1652,7 +1716,15 @@ func (h *elH) applyCommit(o *elOutstanding, stale bool) {
 			elBrief(o.ud.EntriesToSave), elBrief(o.saveCopy))
 	}
 	markerBefore := h.el.InMemMarker()
+	lenBefore, shrunkBefore := h.el.InMemLen(), h.el.InMemShrunk()
 	h.guard("commit", func() { h.el.Commit(o.ud) })
+	if lenBefore > 0 && h.el.InMemLen() == 0 && h.el.InMemMarker() != markerBefore {
+		h.label("full-trim-by-one-apply-ack")
+		if !shrunkBefore {
+			h.label("full-trim-of-unshrunk-window")
+			h.fullTrimFresh = true
+		}
+	}
 	if cu.StableLogTo > 0 {
 		if cu.StableLogTo <= m.last() && cu.StableLogTo > m.floor && m.at(cu.StableLogTo).Term == cu.StableLogTerm {
 			if cu.StableLogTo > m.savedTo {
